@@ -735,14 +735,18 @@ def rule_fq2_sqrt(ctx, cfg, prog, rule='R-POLY/sqrt'):
         from . import consts
         return consts.as_int(consts.decode(val))
 
+    boolinit = {}
+
     def run(stmts, branch):
-        for s in stmts:
+        for idx, s in enumerate(stmts):
             k = s.get('k')
             if k == 'compound':
                 run(s['body'], branch)
             elif k == 'decl':
                 for v in s['vars']:
                     init = v.get('init')
+                    if init is not None and (v.get('t') or {}).get('k') == 'bool':
+                        boolinit[v['id']] = init       # a named condition (its operands are not written before the branch: checked below)
                     if init is not None and init.get('k') == 'initlist':
                         names = [x['g'].split('::')[-1] for x in walk(init) if x.get('k') == 'ref' and x.get('rk') == 'global']
                         env['L%d' % v['id']] = _Mono('u', {}) if names == ['zero', 'one'] else (_Mono('1', {}) if names == ['one', 'zero'] else None)
@@ -777,17 +781,44 @@ def rule_fq2_sqrt(ctx, cfg, prog, rule='R-POLY/sqrt'):
                     raise gvn.Unsupported('call %s at %s' % (name, loc_str(e)))
             elif k == 'if':
                 c = strip(s['c'])
+                neg = False
+                for _ in range(6):
+                    while isinstance(c, dict) and c.get('k') in ('cast', 'paren', 'load'):
+                        c = strip(c['e'])
+                    if isinstance(c, dict) and c.get('k') == 'un' and c.get('op') == '!':
+                        neg = not neg
+                        c = strip(c['e'])
+                        continue
+                    if isinstance(c, dict) and c.get('k') == 'ref' and c.get('rk') == 'local' and c.get('id') in boolinit:
+                        # only when the declaration is the statement right before the branch (nothing can change the operands in between)
+                        prev = stmts[idx - 1] if idx > 0 else None
+                        if not (prev is not None and prev.get('k') == 'decl' and any(v.get('id') == c['id'] for v in prev['vars'])):
+                            raise gvn.Unsupported('named condition declared away from its use at %s' % loc_str(s))
+                        c = strip(boolinit[c['id']])
+                        continue
+                    break
                 if c.get('k') == 'call' and c.get('name') == 'is_zero' and locof(c['this']) == 'P:' + pn:
                     continue        # zero special case
+                then_s, else_s = [s['then']], ([s['else']] if s.get('else') else [])
+                took_rest = False
+                tb = s['then'].get('body', []) if s['then'].get('k') == 'compound' else [s['then']]
+                if not s.get('else') and tb and tb[-1].get('k') == 'return':
+                    # `if (c) { A; return; } REST`: REST is the other arm
+                    else_s = list(stmts[idx + 1:])
+                    took_rest = True
+                if neg:
+                    then_s, else_s = else_s, then_s
                 guards.append((c, dict(env)))
                 saved = dict(env)
-                run([s['then']], 'then')
+                run(then_s, 'then')
                 results['then'] = env.get('this')
                 env.clear()
                 env.update(saved)
-                if s.get('else'):
-                    run([s['else']], 'else')
+                if else_s:
+                    run(else_s, 'else')
                 results['else'] = env.get('this')
+                if took_rest:
+                    return
             elif k == 'return':
                 pass
             else:
